@@ -38,6 +38,15 @@ def eq_key(v):
     raise em.Unspecified("marker value compared")
 
 
+def order_key(v):
+    """Like eq_key, but members in their own order (tells member-order permutations apart)."""
+    if isinstance(v, list):
+        return ("a", tuple(order_key(x) for x in v))
+    if isinstance(v, dict):
+        return ("o", tuple((k, order_key(x)) for k, x in v.items()))
+    return eq_key(v)
+
+
 def run(cfg, values, env=None):
     """Returns the list of expected output rows (model values).  May raise em.Unspecified."""
     vals = [em.normalise(v) for v in values]
@@ -72,13 +81,18 @@ def run(cfg, values, env=None):
         cc = em.Ctx(c.input, c.parents, c.vars, c.macros, sels, c.env)
         rows.append((cc, sel))
     if cfg.unique:
-        seen = set()
+        seen = {}
         out = []
         for c, sel in rows:
             key = tuple(eq_key(v) for _, v in sel) if cfg.selects else eq_key(c.input)
+            okey = tuple(order_key(v) for _, v in sel) if cfg.selects else order_key(c.input)
             if key in seen:
+                if seen[key] != okey:
+                    # equal for `=`, members in another order: what --unique does with such a pair is outside C10's (and so
+                    # this model's) domain - see C10's quantifier
+                    raise em.Unspecified("member-order permutations under --unique")
                 continue
-            seen.add(key)
+            seen[key] = okey
             out.append((c, sel))
         rows = out
     if cfg.sorts:
